@@ -337,6 +337,19 @@ def verdict(pid, viols, make_replay):
     return (1 if new else 0), len(new), hit
 
 
+def cap_diverse(viols, per=4, total=400):
+    """A pipeline keeps a bounded list of the violations it found.  The bound must not hide a kind of violation, or
+    the violations of one property, behind hundreds of another: the first `per` of every (properties, signature)
+    combination are kept, in the order found."""
+    seen, out = {}, []
+    for v in viols:
+        k = (tuple(sorted(v.get("props", []))), v.get("kind"))
+        seen[k] = seen.get(k, 0) + 1
+        if seen[k] <= per and len(out) < total:
+            out.append(v)
+    return out
+
+
 def cache_get(name):
     p = os.path.join(CACHE, name + ".json")
     if os.path.exists(p) and time.time() - os.path.getmtime(p) < 3600:
